@@ -187,6 +187,19 @@ class World:
                 with open(p2, "wb") as fp:
                     fp.write(b1)
                 return {"out": "ok"}
+            if op == "FailedOpen":
+                path = os.path.join(self.root, ev["key"])
+                with open(path, "rb") as fp:
+                    good = fp.read()
+                with open(path, "wb") as fp:
+                    fp.write(good[:31])
+                try:
+                    with self.kf[ev["key"]] as ctx:
+                        ctx.encrypt(b"never encrypted")
+                finally:
+                    with open(path, "wb") as fp:
+                        fp.write(good)
+                return {"out": "ok"}
             if op == "Encrypt":
                 pt = bytes(codec.seq(ev["pt"]))
                 with self.kf[ev["key"]] as ctx:
@@ -210,6 +223,12 @@ class World:
                 cut = cinco.encryption.SecureValue(sv.method, sv.ciphertext[:32])
                 with self.kf[self.holder_of(k)] as ctx:
                     ctx.decrypt(cut)
+                return {"out": "ok"}
+            if op == "DecryptExtended":
+                sv, k, pt = self.store[ev["i"] - 1]
+                longer = cinco.encryption.SecureValue(sv.method, sv.ciphertext + bytes((7 * j + ev["n"]) % 256 for j in range(ev["n"])))
+                with self.kf[self.holder_of(k)] as ctx:
+                    ctx.decrypt(longer)
                 return {"out": "ok"}
             if op == "DecryptBad":
                 sv = cinco.encryption.SecureValue(ev["sv"]["m"], bytes(codec.seq(ev["sv"]["ct"]["y"])))
@@ -331,12 +350,21 @@ def driver(cinco, prop, seed, n_traces, length):
         events = []
         alg = rng.choice(["md5", "sha1", "sha224", "sha256", "sha384", "sha512"])
         mine = []
+        pending = []
         try:
             for _ in range(length):
                 r = rng.random()
-                if prop == "C08":
+                if pending:
+                    ev = pending.pop(0)
+                elif prop == "C08":
                     if r > 0.96:
                         ev = {"op": "Swap"}
+                    elif r > 0.92:
+                        # a failed session, a good one, the files exchanged, another session of the same object
+                        k = rng.choice(["K1", "K2"])
+                        ev = {"op": "FailedOpen", "key": k}
+                        enc = lambda: {"op": "Encrypt", "key": k, "m": rng.choice(["aes", "xor"]), "pt": [rng.randint(0, 255) for _ in range(rng.randint(1, 40))]}  # noqa
+                        pending.extend([enc(), {"op": "Swap"}, enc()])
                     elif r < 0.08:
                         n = rng.choice([0, 1, 16, 33, rng.randint(0, 60)])
                         ev = {"op": "EncryptPair", "key": rng.choice(["K1", "K2"]), "m": rng.choice(["aes", "xor", "best"]), "pt": [rng.randint(0, 255) for _ in range(n)],
@@ -357,6 +385,9 @@ def driver(cinco, prop, seed, n_traces, length):
                         if not cands:
                             continue
                         ev = {"op": "DecryptTruncated", "i": rng.choice(cands)}
+                        if rng.random() < 0.5:
+                            cands = [i + 1 for i, (sv, k, pt) in enumerate(w.store) if sv.method == "aes"]
+                            ev = {"op": "DecryptExtended", "i": rng.choice(cands), "n": rng.randint(1, 15)}
                     else:
                         ev = {"op": "LoadStored", "shape": rng.choice(shapes), "fm": rng.choice(["best", "xor", "aes"])}
                 else:
@@ -402,7 +433,7 @@ def driver(cinco, prop, seed, n_traces, length):
 C08_INV = ["C08_ConcreteMethod", "C08_Inverse", "C08_FreshIV", "C08_WrongKey", "C08_XorInvolution", "C08_MalformedRejected"]
 C09_INV = ["C09_Exact", "C09_SaltLen", "C09_HandWrittenHashed"]
 C09_PROP = ["C09_FreshSalt", "C09_Survives"]
-C08_OPS = ("Swap", "Encrypt", "EncryptPair", "Decrypt", "DecryptBad", "DecryptTruncated", "LoadStored")
+C08_OPS = ("Swap", "FailedOpen", "Encrypt", "EncryptPair", "Decrypt", "DecryptBad", "DecryptTruncated", "DecryptExtended", "LoadStored")
 C09_OPS = ("BuildDefault", "Assign", "LoadPlain", "Challenge", "SaveLoad")
 
 
